@@ -5,7 +5,7 @@ Extraction "model.ml" ext_base spec_sort spec_merge spec_sorted spec_select spec
   set_mem set_adjoin set_delete set_union set_of_list set_inter set_diff set_xor set_subset set_equal set_disjoint
   set_filter_mod set_remove_mod set_map_half zsum
   bag_count bag_incr bag_size bag_union bag_inter bag_sum bag_diff bag_of_list
-  map_ref map_set map_has map_delete map_adjoin map_replace map_bump map_union map_inter map_diff map_xor map_filter_mod
+  map_ref map_set map_has map_delete map_adjoin map_replace map_bump map_union map_inter map_diff map_xor map_filter_mod map_range_lt map_range_le map_range_gt map_range_ge
   seq_set seq_take_right seq_drop_right seq_index_mod seq_delete_dups seq_delete seq_count_mod seq_cumulate
   seq_take_while_mod seq_drop_while_mod seq_skip_mod seq_index_right_mod seq_sub seq_reverse_range seq_fill_range
   seq_swap seq_iota seq_partition_mod seq_remove_front seq_remove_back seq_back seq_add_back seq_take seq_drop
